@@ -34,6 +34,18 @@ def _gen_plan(seed, tier):
         plan['faults'] = [{'at': 'cost#%d' % a, 'kind': 'raise', 'msg': 'injected failure of the cost function'} for a in ats]
         plan['ops'] += [{'op': 'step', 'n': r0.randint(2, 4)} for _ in range(r0.randint(1, 3))]
         return plan
+    r6 = sub_rng(seed, 'plan.c04.monkw')
+    if r6.random() < 0.08:
+        # monitors handed over as keywords of the very Step that runs the next iteration (Step(EvaluationMonitor=m), Step(StepMonitor=m)),
+        # on a run that is under way and not about to stop
+        plan = solverplan.gen_solver_plan(seed, tier, ID, dict(RETRY_KNOBS, p_monitors=0.5, p_logging=0.0, p_solve=0.0, p_term=0.0, p_limits=0.0,
+                                                                p_midrun_set=0.0, max_ops=2))
+        for _ in range(r6.randint(1, 3)):
+            plan['ops'].append({'op': 'step', 'n': r6.randint(1, 4)})
+            key = r6.choice(['evalmon_kw', 'evalmon_kw', 'stepmon_kw'])
+            plan['ops'].append({'op': 'step', 'n': 1, key: {'kind': 'Monitor', 'file': '%s%d.log' % (key[:4], _)}})
+            plan['ops'].append({'op': 'step', 'n': r6.randint(1, 3)})
+        return plan
     plan = solverplan.gen_solver_plan(seed, tier, ID, KNOBS)
     # fault-injecting configuration (reported separately in the evidence: faults_fired): an ENOSPC / EIO on a write
     # of a LoggingMonitor file.  The plan ends where the error reaches the caller.
